@@ -21,6 +21,7 @@ META = dict(
     required_hits=["product_operator", "product_error", "inplace_vs_copy", "junction_within", "junction_outside", "persisted", "operands_untouched"],
     max_inconclusive_frac=0.05,
 )
+META["level_text"] += " Error patterns include 'every other target of the second archive'; targets at the scale of a point of the first archive with another nf are included."
 
 TOL = 1e-12
 
